@@ -184,6 +184,16 @@ class Vec:
         return isinstance(o, Vec) and o.items == self.items
 
 
+class SetVal:
+    """std HashSet/BTreeSet of concrete scalars"""
+
+    def __init__(self, items=()):
+        self.items = set(items)
+
+    def __repr__(self):
+        return "set(%s)" % sorted(map(repr, self.items))
+
+
 class Ref:
     def __init__(self, frame, local, proj):
         self.frame = frame
@@ -865,14 +875,79 @@ def std_model(I, p, fr, t, args):
              "as_slice", "as_mut", "borrow", "unwrap_or_clone", "into_boxed_slice", "as_mut_slice", "into_iter_vec") and args:
         if n in ("from", "into") and (t.get("resolved") or "").split("::")[0] in I.fx.crates:
             return NotImplemented
+        if n == "from" and sadt.endswith(("hash::set::HashSet", "btree::set::BTreeSet")) and isinstance(d0, Vec):
+            return SetVal(x for x in d0.items if isinstance(x, (int, str)))
         if n == "clone":
             return copy.deepcopy(d0) if isinstance(d0, (Vec, Adt)) else d0
         if n in ("deref", "deref_mut", "as_ref", "as_slice", "as_mut", "borrow", "as_mut_slice"):
             return args[0]
         return d0 if n in ("into_vec", "to_vec", "to_owned", "unwrap_or_clone") else args[0]
+    if n == "take" and c.startswith("core::mem::") and isinstance(args[0], Ref):
+        old = I.deref(args[0])
+        I.write_ref(args[0], Vec() if isinstance(old, Vec) else (SetVal() if isinstance(old, SetVal) else Unknown("default")))
+        return old
+    if n in ("new", "default", "with_capacity") and sadt.endswith(("hash::set::HashSet", "btree::set::BTreeSet")):
+        return SetVal()
+    if n == "from" and (sadt.endswith(("hash::set::HashSet", "btree::set::BTreeSet"))) and isinstance(d0, Vec):
+        return SetVal(x for x in d0.items if isinstance(x, (int, str)))
+    if isinstance(d0, SetVal):
+        a1 = I.deref(args[1]) if len(args) > 1 else None
+        if n == "contains" and isinstance(a1, (int, str)):
+            return a1 in d0.items
+        if n == "insert" and isinstance(a1, (int, str)):
+            new = a1 not in d0.items
+            d0.items.add(a1)
+            return new
+        if n == "remove" and isinstance(a1, (int, str)):
+            had = a1 in d0.items
+            d0.items.discard(a1)
+            return had
+        if n == "len":
+            return len(d0.items)
+        if n == "is_empty":
+            return not d0.items
+        if n == "clone":
+            return SetVal(d0.items)
+        if n in ("iter", "into_iter"):
+            return Iter(sorted(d0.items, key=repr))
+    if n == "zip" and isinstance(d0, Iter) and d0.items is not None:
+        o = I.deref(args[1])
+        if isinstance(o, Vec):
+            o = Iter(list(o.items))
+        if isinstance(o, Iter) and o.items is not None:
+            return Iter([Adt(None, None, {"0": a, "1": b}) for a, b in zip(d0.items[d0.pos:], o.items[o.pos:])])
     if n == "box_assume_init_into_vec_unsafe":
         la = getattr(fr, "last_array", None)
         return copy.copy(la) if isinstance(la, Vec) else Unknown("vec!")
+    if n == "pop" and isinstance(d0, Vec):
+        if d0.items:
+            return Adt("core::option::Option", "Some", {"0": d0.items.pop()})
+        return Adt("core::option::Option", "None", {})
+    if n == "swap_remove" and isinstance(d0, Vec) and isinstance(I.deref(args[1]), int):
+        i = I.deref(args[1])
+        if 0 <= i < len(d0.items):
+            v = d0.items[i]
+            d0.items[i] = d0.items[-1]
+            d0.items.pop()
+            return v
+        return "diverge"
+    if n == "remove" and isinstance(d0, Vec) and isinstance(I.deref(args[1]), int):
+        i = I.deref(args[1])
+        if 0 <= i < len(d0.items):
+            return d0.items.pop(i)
+        return "diverge"
+    if n == "split_off" and isinstance(d0, Vec) and isinstance(I.deref(args[1]), int):
+        i = I.deref(args[1])
+        if 0 <= i <= len(d0.items):
+            tail = d0.items[i:]
+            del d0.items[i:]
+            return Vec(tail)
+        return "diverge"
+    if n == "index" and isinstance(d0, Vec) and isinstance(I.deref(args[1]), int):
+        i = I.deref(args[1])
+        if 0 <= i < len(d0.items):
+            return d0.items[i]
+        return "diverge"
     if n == "push" and isinstance(d0, Vec):
         d0.items.append(args[1])
         return Adt(None, None, {})
@@ -964,6 +1039,8 @@ def std_model(I, p, fr, t, args):
         dty = fr.f["locals"][t["dest"]["l"]]["ty"]
         if dty.startswith("std::vec::Vec"):
             return Vec(d0.items[d0.pos:])
+        if dty.startswith(("std::collections::HashSet", "std::collections::BTreeSet")) and all(isinstance(x, (int, str)) for x in d0.items[d0.pos:]):
+            return SetVal(d0.items[d0.pos:])
     if n in ("rev",) and isinstance(d0, Iter) and d0.items is not None:
         return Iter(list(reversed(d0.items[d0.pos:])))
     if n in ("enumerate",) and isinstance(d0, Iter) and d0.items is not None:
